@@ -105,3 +105,63 @@ Proof.
   destruct H as [s1 [H T]]. destruct (call_trace_extends_lemma 40 (pframes fr0) (VFun 1) [] st1 (VTab 6) s1 (or_introl H)) as [ext He].
   exists s1, ext. split; auto. split; auto. rewrite T in He. simpl in He. inversion He. reflexivity.
 Qed.
+
+(* ---------- the two-run law of fault injection ----------
+   program:  emit(1)
+             local ok = pcall(function() emit(2); emit(3) end)
+             emit(ok)
+             local co = coroutine.wrap(function() emit(5); coroutine.yield(); emit(6) end)
+             co(); emit(4); co()
+   fault-free trace: 1 | 2 | 3 | true | 5 | 4 | 6
+   k = 3 (third emit fails inside the pcall): 1 | 2 | <marker> | false | 5 | 4 | 6  -> 2 common rows
+   k = 6 (sixth emit, in the main chunk after a yield): first 5 rows common, the run ends in an error *)
+From GL Require Import Lua.FaultFacts Lua.FaultStepFacts Lua.FaultRunFacts.
+Definition n_ok : bytes := [111;107]. Definition n_co : bytes := [99;111].
+Definition emit1 (ln : Z) (e : expr) : stmt := SCall ln (ECall (EVar s_emit) [e]).
+Definition fprog : list stmt :=
+  [emit1 1 (ENum 1%float);
+   SLocal 2 [n_ok] [ECall (EVar s_pcall)
+      [EFunc [] false [emit1 2 (ENum 2%float); emit1 2 (ENum 3%float)] 2 2]];
+   emit1 3 (EVar n_ok);
+   SLocal 4 [n_co] [ECall (EIndex (EVar s_coroutine) (EStr s_wrap))
+      [EFunc [] false [emit1 4 (ENum 5%float); SCall 4 (ECall (EIndex (EVar s_coroutine) (EStr s_yield)) []);
+                       emit1 4 (ENum 6%float)] 4 4]];
+   SCall 5 (ECall (EVar n_co) []); emit1 5 (ENum 4%float); SCall 5 (ECall (EVar n_co) [])].
+
+Definition fin_trace (f : fin) : list (list value) :=
+  match fin_state f with Some s => trace s | None => [] end.
+
+Example ex_fault_free : fin_trace (run_program 200 no_devs fprog) =
+  [[VNum 1%float]; [VNum 2%float]; [VNum 3%float]; [VBool true]; [VNum 5%float]; [VNum 4%float]; [VNum 6%float]].
+Proof. vm_compute. reflexivity. Qed.
+
+Example ex_fault_3 : fin_trace (run_program 200 (with_fault no_devs 3) fprog) =
+  [[VNum 1%float]; [VNum 2%float]; [VFault 99 0]; [VBool false]; [VNum 5%float]; [VNum 4%float]; [VNum 6%float]].
+Proof. vm_compute. reflexivity. Qed.
+
+Example ex_fault_6 : fin_trace (run_program 200 (with_fault no_devs 6) fprog) =
+  [[VNum 1%float]; [VNum 2%float]; [VNum 3%float]; [VBool true]; [VNum 5%float]; [VFault 99 0]].
+Proof. vm_compute. reflexivity. Qed.
+
+(* the hypotheses of fault_prefix hold (both runs end with a state) and its conclusion, obtained
+   from the theorem, is the equation one reads off the three traces above *)
+Definition fs_a : state := match fin_state (run_program 200 no_devs fprog) with Some s => s | None => st0 end.
+Definition fs_3 : state := match fin_state (run_program 200 (with_fault no_devs 3) fprog) with Some s => s | None => st0 end.
+Definition fs_6 : state := match fin_state (run_program 200 (with_fault no_devs 6) fprog) with Some s => s | None => st0 end.
+
+Example ex_fault_hyp_a : fin_state (run_program 200 no_devs fprog) = Some fs_a. Proof. vm_compute. reflexivity. Qed.
+Example ex_fault_hyp_3 : fin_state (run_program 200 (with_fault no_devs 3) fprog) = Some fs_3. Proof. vm_compute. reflexivity. Qed.
+Example ex_fault_hyp_6 : fin_state (run_program 200 (with_fault no_devs 6) fprog) = Some fs_6. Proof. vm_compute. reflexivity. Qed.
+
+Example ex_fault_prefix_3 : firstn 2 (trace fs_3) = firstn 2 (trace fs_a).
+Proof. exact (fault_prefix_lemma 200 no_devs 3 fprog fs_a fs_3 eq_refl eq_refl ex_fault_hyp_a ex_fault_hyp_3). Qed.
+
+Example ex_fault_prefix_6 : firstn 5 (trace fs_6) = firstn 5 (trace fs_a).
+Proof. exact (fault_prefix_lemma 200 no_devs 6 fprog fs_a fs_6 eq_refl eq_refl ex_fault_hyp_a ex_fault_hyp_6). Qed.
+
+Example ex_fault_prefix_3_rows : firstn 2 (trace fs_3) = [[VNum 1%float]; [VNum 2%float]].
+Proof. vm_compute. reflexivity. Qed.
+
+(* the law is sharp: row k itself differs (the marker), and later rows may differ too *)
+Example ex_fault_row_k_differs : nth 2 (trace fs_3) [] <> nth 2 (trace fs_a) [].
+Proof. vm_compute. discriminate. Qed.
